@@ -54,6 +54,23 @@ Theorem C15_at_most_once_or_single_retry :
     ps (fst (connection ps ws)).
 Proof. exact thm_C15_at_most_once_or_single_retry. Qed.
 
+(** answered_batch_not_resent: a backend that RECEIVED a batch - whether it took it,
+    rejected it with "code: msg" or answered with any other error (socket: text
+    without colon; HTTP: status <> 200, body that is not json, json with rc <> 0,
+    remote error text), or the HTTP exchange broke after the request was read -
+    is not sent this batch again: the receiving attempt is the last attempt made
+    for the batch and every attempt before it failed to connect (nothing sent). *)
+Theorem C15_answered_batch_not_resent :
+  forall (ps : list peer) (ws : list write),
+    Forall2 (fun p p' =>
+      exists ts : list (list (pstatus * behav)),
+        length ts = length (batches_for (p_id p) (flushes ws)) /\
+        p_trace p' = p_trace p ++ concat ts /\
+        Forall (fun dt => forall s b, In (s, b) dt -> received b = true ->
+                  exists pre, dt = pre ++ [(s, b)] /\ Forall (fun sb => snd sb = Refuse) pre) ts)
+    ps (fst (connection ps ws)).
+Proof. exact thm_C15_answered_batch_not_resent. Qed.
+
 (** never_to_down: every connection attempt of the history was made while the
     backend was up (or syncing); a call for a backend that is down or broken
     returns its last error without touching the backend. *)
@@ -134,8 +151,8 @@ Proof. exact thm_C15_fuel_sufficient. Qed.
 (** non-vacuity: backend a accepts, backend b refuses the first connection and
     comes back; the second batch selects b only and is rejected. *)
 Example C15_example :
-  let a := mkPeer (lit "a") Up true false [] [] [] [] [] false in
-  let b := mkPeer (lit "b") Up true false [] [Refuse; Accept; Reject 400 (lit "no")] [Up] [] [] false in
+  let a := mkPeer (lit "a") Up true false [] [] [] [] [] false Socket in
+  let b := mkPeer (lit "b") Up true false [] [Refuse; Accept; Reject 400 (lit "no")] [Up] [] [] false Socket in
   let ws := [mkWrite [Cmd (lit " COMMAND [1] X ") [] true; Cmd (lit "COMMAND [2] Y") [lit "a"] true; Get true] false;
              mkWrite [Cmd (lit "COMMAND [3] Z") [lit "b"] false] true] in
   let r := connection [a; b] ws in
@@ -146,7 +163,25 @@ Example C15_example :
   map p_sched (fst r) = [true; true].
 Proof. vm_compute. repeat split. Qed.
 
+(** non-vacuity, HTTP transport: the backend answers the first batch with "rc 1"
+    (received, not sent again, the backend is marked failed); the second POST is
+    refused while no connect test is made (plain error, no retry); the third batch
+    meets a refused connect test, is retried once and taken. *)
+Example C15_example_http :
+  let h := mkPeer (lit "h") Up true false [] [RejectPlain (lit "REMOTE rc=1"); Refuse; Refuse; Accept]
+                  [Up; Up; Up] [] [] false (Http true) in
+  let ws := [mkWrite [Cmd (lit "COMMAND [1] X") [] true; Get true] false;
+             mkWrite [Cmd (lit "COMMAND [2] Y") [] true; Get true] false;
+             mkWrite [Cmd (lit "COMMAND [3] Z") [] false] true] in
+  let r := connection [h] ws in
+  map p_log (fst r) = [[[lit "COMMAND [1] X"]; [lit "COMMAND [3] Z"]]] /\
+  map (fun p => map snd (p_trace p)) (fst r) = [[RejectPlain (lit "REMOTE rc=1"); Refuse; Refuse; Accept]] /\
+  snd r = [[OErr [(500%Z, lit "REMOTE rc=1")]; OGet]; [OErr [(500%Z, msg_httperr)]; OGet]; [OClosed]] /\
+  map p_transport (fst r) = [Http true].
+Proof. vm_compute. repeat split. Qed.
+
 Print Assumptions C15_routing.
+Print Assumptions C15_answered_batch_not_resent.
 Print Assumptions C15_received_batches.
 Print Assumptions C15_delivered_is_ordered_subseq.
 Print Assumptions C15_at_most_once_or_single_retry.
